@@ -418,7 +418,10 @@ def sers_of(root) -> list:
 
 def project_sheet(root, xlsx_blob) -> dict:
     """The observed record of spec/ChartSheet.tla: references, point counts, cached points, and the sheet they name."""
-    sheets = read_xlsx(xlsx_blob) if xlsx_blob is not None else {"__date1904__": False}
+    try:
+        sheets = read_xlsx(xlsx_blob) if xlsx_blob is not None else {"__date1904__": False}
+    except Exception:           # noqa: BLE001  the member the chart's relationship leads to is not a workbook: it holds no cell (the clauses
+        sheets = {"__date1904__": False}      # that compare cached points with cells then fail; nothing is raised here)
     d1904 = root.find(q(C, "date1904"))
     sers = []
     used = set()
@@ -487,8 +490,20 @@ def sheet_chunk(jobs: list) -> list:
     prs = pptx.Presentation()
     lay = prs.slide_layouts[6]
     res, live = [], []
+    # every other chunk's deck already holds an embedded Excel workbook that is NOT a chart's (an OLE object, /ppt/embeddings/
+    # Microsoft_Excel_Sheet1.xlsx): chart numbers and workbook numbers are then not aligned (chart1.xml <-> ...Sheet2.xlsx)
+    import zlib
+    ole_first = bool(jobs) and zlib.crc32(str(jobs[0][0]).encode()) % 2 == 0
+    pre = []
+    if ole_first:
+        # the slides of the charts come first in the deck, the slide of the OLE object last - but the OLE object is ADDED first (its part
+        # is written after the charts' workbooks)
+        from pptx.enum.shapes import PROG_ID
+        pre = [prs.slides.add_slide(lay) for j in jobs if not j[3].startswith("corpus:")]
+        prs.slides.add_slide(lay).shapes.add_ole_object(io.BytesIO(b"PK\x03\x04 an embedded workbook that belongs to no chart"), PROG_ID.XLSX,
+                                                       Emu(0), Emu(0), Emu(1000000), Emu(1000000))
     for jid, shape, site, tname, parity in jobs:
-        rec = {"id": jid, "site": site, "type": tname, "data": shape, "raised": "", "parity": parity}
+        rec = {"id": jid, "site": site, "type": tname, "data": shape, "raised": "", "parity": parity, "oleFirst": ole_first}
         if tname.startswith("corpus:"):                    # a PowerPoint-authored chart: load its deck, replace_data, save, read back
             res.append(rec)
             live.append(None)
@@ -506,7 +521,7 @@ def sheet_chunk(jobs: list) -> list:
                 rec["obs"] = {"date1904": False, "wbDate1904": False, "grid": [], "sers": [], "hasWorkbook": False}
             continue
         try:
-            slide = prs.slides.add_slide(lay)
+            slide = pre.pop(0) if ole_first else prs.slides.add_slide(lay)
             if site == "ReuseData":
                 # ONE chart-data object: a chart is made from its first series, the object is then extended to the whole shape and
                 # handed to replace_data - nothing the first use computed may be remembered
@@ -537,7 +552,7 @@ def sheet_chunk(jobs: list) -> list:
                 gf = slide.shapes.add_chart(types[tname][0], Emu(0), Emu(0), Emu(3000000), Emu(2000000), build_data(first, parity))
                 if site == "ReplaceData":
                     gf.chart.replace_data(build_data(shape, parity))
-            live.append(len(prs.slides) - 1)
+            live.append(list(prs.slides).index(slide) if ole_first else len(prs.slides) - 1)
         except Exception as e:      # recorded, judged by the caller (an exception is not a workbook)
             rec["raised"] = "%s: %s" % (type(e).__name__, str(e)[:120])
             live.append(None)
